@@ -670,8 +670,8 @@ func runInputs(c *vh.Ctx, cs Case) {
 					if i >= len(cs.Inputs) {
 						continue
 					}
-					if t, ok := scriptThreshold(cs.Inputs[i].Script); !ok || t == 0 {
-						continue
+					if t, ok := scriptThreshold(cs.Inputs[i].Script); !ok || t == 0 || !isScriptType(cs.Inputs[i].Type) {
+						continue // only signatures of ordinary inputs with a positive threshold
 					}
 					for idx, s := range m {
 						if s != nil {
@@ -841,6 +841,49 @@ func buildEntry(e SchEntry, m crypto.Hash) schOut {
 		p2 := crypto.NewKeyFromSeed(append(priv[:], nonce[:]...))
 		o.pub = p2.Public()
 		o.a = leBig(p2[:])
+	case "torsionR", "torsionKey", "mixedR", "mixedKey", "noncanonR":
+		// encodings that only a lax point decoder accepts: small-order points,
+		// points with a torsion component, non-canonical field elements
+		o.modelled = false
+		lo := lowOrder
+		if e.Mode == "mixedR" || e.Mode == "mixedKey" {
+			lo = lowOrder[1:] // a non-trivial torsion component
+		}
+		tb, _ := hex.DecodeString(lo[int(nonce[0])%len(lo)])
+		T, err := new(edwards25519.Point).SetBytes(tb)
+		if err != nil {
+			panic(err)
+		}
+		Rp, _ := new(edwards25519.Point).SetBytes(R[:])
+		Ap, _ := new(edwards25519.Point).SetBytes(o.pub[:])
+		switch e.Mode {
+		case "torsionR": // R is the small-order point itself, s = k*a
+			copy(o.sig[:32], tb)
+			kk := challenge(tb, o.pub[:], m)
+			ss := edwards25519.NewScalar().Multiply(kk, scalarOf(priv))
+			copy(o.sig[32:], ss.Bytes())
+		case "torsionKey": // the key is a small-order point, s = r
+			copy(o.pub[:], tb)
+			copy(o.sig[32:], nonce[:])
+		case "mixedR": // R + T, response made for the transcript that is verified
+			R2 := new(edwards25519.Point).Add(Rp, T).Bytes()
+			copy(o.sig[:32], R2)
+			kk := challenge(R2, o.pub[:], m)
+			ss := edwards25519.NewScalar().MultiplyAdd(kk, scalarOf(priv), scalarOf(nonce))
+			copy(o.sig[32:], ss.Bytes())
+		case "mixedKey": // A + T
+			A2 := new(edwards25519.Point).Add(Ap, T).Bytes()
+			copy(o.pub[:], A2)
+			kk := challenge(R[:], A2, m)
+			ss := edwards25519.NewScalar().MultiplyAdd(kk, scalarOf(priv), scalarOf(nonce))
+			copy(o.sig[32:], ss.Bytes())
+		case "noncanonR": // the identity with the sign bit of x set / y = p+1
+			nb, _ := hex.DecodeString(nonCanon[int(nonce[0])%len(nonCanon)])
+			copy(o.sig[:32], nb)
+			kk := challenge(nb, o.pub[:], m)
+			ss := edwards25519.NewScalar().Multiply(kk, scalarOf(priv))
+			copy(o.sig[32:], ss.Bytes())
+		}
 	case "badR":
 		// y = 2^255-1 style non-canonical / undecodable commitment
 		for i := 0; i < 32; i++ {
@@ -852,6 +895,30 @@ func buildEntry(e SchEntry, m crypto.Hash) schOut {
 	kk := challenge(o.sig[:32], o.pub[:], m)
 	o.k = leBig(kk.Bytes())
 	return o
+}
+
+var lowOrder = []string{
+	"0100000000000000000000000000000000000000000000000000000000000000", // identity
+	"ecffffffffffffffffffffffffffffffffffffffffffffffffffffffffffff7f", // order 2
+	"0000000000000000000000000000000000000000000000000000000000000000", // order 4
+	"0000000000000000000000000000000000000000000000000000000000000080", // order 4
+	"26e8958fc2b227b045c3f489f2ef98f0d5dfac05d3c63339b13802886d53fc05", // order 8
+	"26e8958fc2b227b045c3f489f2ef98f0d5dfac05d3c63339b13802886d53fc85", // order 8
+	"c7176a703d4dd84fba3c0b760d10670f2a2053fa2c39ccc64ec7fd7792ac037a", // order 8
+	"c7176a703d4dd84fba3c0b760d10670f2a2053fa2c39ccc64ec7fd7792ac03fa", // order 8
+}
+
+var nonCanon = []string{
+	"0100000000000000000000000000000000000000000000000000000000000080", // identity, x sign bit set
+	"eeffffffffffffffffffffffffffffffffffffffffffffffffffffffffffff7f", // y = p + 1
+}
+
+func laxMode(m string) bool {
+	switch m {
+	case "torsionR", "torsionKey", "mixedR", "mixedKey", "noncanonR":
+		return true
+	}
+	return false
 }
 
 func entryTerm(o schOut) string {
@@ -877,7 +944,7 @@ func runVerify(c *vh.Ctx, cs Case) {
 			return
 		}
 		ref := ed25519.Verify(ed25519.PublicKey(o.pub[:]), m[:], o.sig[:])
-		if ref != got {
+		if ref != got && !laxMode(cs.Entries[0].Mode) { // the reference decoder is lax on purpose
 			c.Fail("verify-vs-reference", fmt.Sprintf("Key.Verify=%v, Ed25519 reference=%v", got, ref), cs)
 		}
 		want := cs.Entries[0].Mode == "honest" || cs.Entries[0].Mode == "repo"
